@@ -286,6 +286,65 @@ class Gen:
         out.append(Case(sel, encode(sel, [("dyn", l, d1), ("dyn", l, d2)], m()), tag=f"dyn-mixed-{l}"))
         return out
 
+    def concrete_relation_cases(self, e):
+        """fully CONCRETE dynamic operands of different (and equal) lengths related by leading zeros / trailing zeros /
+        prefix / suffix — where a length-insensitive or numeric comparison gives the wrong answer"""
+        sel, out = e["sel"], []
+        is_bytes = e["ty"] in ("bytes", "string") and not e["is_array"]
+        if e["is_array"] and e["ty"] in ("bytes", "string"):
+            return out                      # NotImplementedError for bytes[] / string[]
+        m = (lambda: self.msg()) if e["has_msg"] else (lambda: None)
+        rng = self.rng
+
+        def case(a, b, tag):
+            if is_bytes:
+                ops = [("dyn", len(a), words_of_bytes(bytes(a))), ("dyn", len(b), words_of_bytes(bytes(b)))]
+            else:
+                ops = [("dyn", len(a), list(a)), ("dyn", len(b), list(b))]
+            out.append(Case(sel, encode(sel, ops, m()), tag=f"dynrel-{tag}-{len(a)}-{len(b)}"))
+
+        def both(a, b, tag):
+            case(a, b, tag)
+            case(b, a, tag + "-rev")
+
+        if is_bytes:
+            lens = [1, 2, 31, 32, 33]
+            pick = lens if self.thorough else [1] + rng.sample(lens[1:], 2)
+            zero = lambda k: [0] * k
+            for L in pick:
+                x = [rng.randrange(1, 256)] + [rng.randrange(256) for _ in range(L - 2)] + ([rng.randrange(1, 256)] if L > 1 else [])
+                for k in (1, 2):
+                    if L + k <= 34 or self.thorough:
+                        both(zero(k) + x, x, "lead0")
+                        both(x + zero(k), x, "trail0")
+                if L > 1:
+                    both(x, x[:-1], "prefix")
+                    both(x, x[1:], "suffix")
+                case(x, list(x), "same")
+            both(zero(1), zero(2), "zeros")
+            both(zero(32), zero(33), "zeros")
+            both(zero(31), zero(32), "zeros")
+            both([], zero(1), "empty-vs-zero")
+            both([], [7], "empty-vs-one")
+        else:
+            maxlen = 4 if self.thorough else 3
+            for L in range(1, maxlen):
+                x = [self.word() or 7 for _ in range(L)]
+                x[0] = x[0] or 7
+                x[-1] = x[-1] or 9
+                for k in range(1, maxlen - L + 1):
+                    both([0] * k + x, x, "lead0")
+                    both(x + [0] * k, x, "trail0")
+                if L > 1:
+                    both(x, x[:-1], "prefix")
+                    both(x, x[1:], "suffix")
+                case(x, list(x), "same")
+            both([0], [0, 0], "zeros")
+            both([0, 7], [7], "lead0")
+            both([], [0], "empty-vs-zero")
+            both([], [7], "empty-vs-one")
+        return out
+
     def error_cases(self, e):
         """encodings on which the code raises / goes stuck (symbolic offset or length, huge length, bad message)"""
         sel, out = e["sel"], []
@@ -321,7 +380,7 @@ class Gen:
         if e["operands"] == 1:
             cs = self.unary_cases(e)
         elif e["is_array"] or e["ty"] in ("bytes", "string"):
-            cs = self.dyn_cases(e)
+            cs = self.dyn_cases(e) + self.concrete_relation_cases(e)
         else:
             cs = self.static_cases(e)
         cs += self.error_cases(e)
@@ -844,6 +903,11 @@ def level2_programs(ctx, G, entries):
             pick += rng.sample(sym, min(len(sym), ctx.scale(2, 4)))
         if conc:
             pick += rng.sample(conc, min(len(conc), ctx.scale(1, 3)))
+        rel = [c for c in conc if c.tag.startswith("dynrel") and c not in pick]
+        if rel:
+            # concrete operands of different lengths (leading / trailing zeros, prefix, suffix): always through the SEVM too
+            uneq = [c for c in rel if c.tag.split("-")[-1] != c.tag.split("-")[-2]]
+            pick += rng.sample(uneq, min(len(uneq), ctx.scale(3, 8)))
         for j, c in enumerate(pick):
             progs.append(([c], []))
             deep = [ch for ch in chains if ch]
